@@ -227,8 +227,12 @@ class Environment:
             # environment.
             # Create a copy of the failure exception with a new traceback.
             # Multiple process can wait for the same failed event.
-            exc = type(event._value)(*event._value.args)
-            exc.__cause__ = event._value
+            try:
+                exc = type(event._value)(*event._value.args)
+                exc.__cause__ = event._value
+            except TypeError:
+                # The constructor does not take the exception's own args.
+                exc = event._value
             raise exc
 
     def run(
